@@ -14,6 +14,7 @@ respond <legacy> <transport> <cfgMax> <idleMs> <draw> <slack> <draw2>
       <wrote|silent|failed0|failed1> <the 17 response fields of `serve` (ignored unless `wrote`)>
 maxsize <isUdp> <edns> <cap>
 dcenv <isUdp> <advertised> <len>      -- DNSCrypt envelope: `dcSize encLen prefix frameOk`
+dcvis <legacy> <adv> <cfg> <unc>      -- DNSCrypt/UDP: `plain <unc>` (left uncompressed) or `cut`
 dcaccept <hdrResponse> <nq>           -- does the DNSCrypt library hand the query to the handler?
 ```
 `respond` answers `none` when nothing reaches the wire.
@@ -92,6 +93,11 @@ def step (s : Unit) : List String → Unit × String
     | _, _ => (s, "bad-op")
   | ["dcenv", isUdp, adv, len] =>
     (s, s!"{dcSize (bool! isUdp) (nat! adv)} {dcEncLen (nat! len)} {dcPrefix (nat! len)} {showB (dcFrameOk (nat! len))}")
+  | ["dcvis", legacy, adv, cfg, unc] =>
+    -- does the library leave a message of uncompressed length `unc` (OPT included) alone, packed
+    -- without compression, for a UDP client advertising `adv` under the configured maximum `cfg`?
+    let seen := dcAdvSeen (bool! legacy) (nat! adv) (nat! cfg)
+    (s, if nat! unc ≤ max (dcSize true seen) minMsgSize then s!"plain {nat! unc}" else "cut")
   | ["dcaccept", hresp, nq] =>
     (s, showB (dcAccepts { response := bool! hresp, opcode := 0, nq := nat! nq, nans := 0, nns := 0 }))
   | ["maxsize", isUdp, edns, cap] =>
